@@ -4,7 +4,9 @@ import re
 from fractions import Fraction as F
 
 from gen import unit_catalogue as gen
-from lib import c06_units as cu, framework as fw, qconv, runner
+import sys
+
+from lib import c06_more as more, c06_units as cu, framework as fw, qconv, runner
 
 META = {
     'props': 'Props/C06.v',
@@ -435,6 +437,8 @@ def check_outputs(ctx, d):
     cur_enums = {c for c, is_cur, _ in d['scan'] if is_cur}
     seen, cases = set(), []
     for r in d['outs']:
+        if r['cls'] == 'HIP_RA_X':       # HIP-RA-X has its own output-unit path (whole runs: more.check_hip_runs)
+            continue
         sig = (r['name'], r['enum'], r['pref'], r['cur'])
         if sig in seen:
             continue
@@ -918,12 +922,17 @@ def correspondence(ctx, proofs_ok=True):
     d = gen.data()
     if d['scan_error']:
         raise RuntimeError('LookupUnits scan order not recognised: ' + d['scan_error'])
+    me = sys.modules[__name__]
     check_tables(ctx, d)
     check_reference(ctx, d)
-    check_reader(ctx, d)
+    cases = check_reader(ctx, d)
+    more.catalogue_coverage(me, ctx, d, cases)
+    more.check_lists(me, ctx, d)
     check_outputs(ctx, d)
     check_convert_loop(ctx, d)
     check_runs(ctx, d)
+    more.check_heuristics(me, ctx, d)
+    more.check_hip_runs(me, ctx, d)
 
 
 def search(ctx):
